@@ -6,7 +6,8 @@ from ..hooks import methods_of
 T = 'tao::pegtl::'; I = 'tao::pegtl::internal::'
 SCOPE_CLASSES = {
     I + 'state', T + 'change_state', T + 'change_states', T + 'change_action_and_state', T + 'change_action_and_states', T + 'add_state',
-    T + 'instantiate', T + 'change_action', T + 'change_control', T + 'enable_action', T + 'disable_action',
+    T + 'instantiate', T + 'change_action', T + 'change_control', T + 'enable_action', T + 'disable_action', T + 'limit_bytes', T + 'limit_depth', T + 'check_bytes',
+    T + 'discard_input', T + 'discard_input_on_success', T + 'discard_input_on_failure', T + 'control_action',
     I + 'action', I + 'control', I + 'enable', I + 'disable', T + 'normal',
 }
 REQUIRED = {I + 'state', T + 'change_state', T + 'change_states', T + 'change_action_and_state', T + 'change_action_and_states',
